@@ -101,9 +101,9 @@ CLAIMED = {
  },
  'C12': {
   'text': 'Partial (index-safety kernels). Verus proves that the decision-table evaluation code never indexes out of bounds given every rule carries one output value per output clause (get_result, hit policies, '
-          'compound outputs with fewer names than outputs answer null), that evaluate_parsed_decision_table preserves rule/output arities, and that Workspace::deploy skips models that fail to build and deploys the others; that the cycle check (find_cycle and the scan ending check_cyclic_dependencies, unit cycles) accepts a collected dependency graph only when a rank falls along every requirement (the evaluators\' recursion is well-founded) and reports only nodes that lie on a cycle.',
+          'compound outputs with fewer names than outputs answer null), that evaluate_parsed_decision_table preserves rule/output arities, and that Workspace::deploy skips models that fail to build and deploys the others; that the cycle check (find_cycle and the scan ending check_cyclic_dependencies, unit cycles) accepts a collected dependency graph only when a rank falls along every requirement (the evaluators\' recursion is well-founded) and reports only nodes that lie on a cycle, and that find_cycle terminates on every graph.',
   'design_ref': 'DESIGN.md section 5 (C12)',
-  'note': 'Not decided: XML parsing (roxmltree), missing attributes, dangling references, the collection of the dependency graph from the definitions and termination of find_cycle (bounded: generated cyclic models), item-definition classification (pending), parse_decision_table\'s arity validation (repaired by a fix: commit, not yet under contract).',
+  'note': 'Not decided: XML parsing (roxmltree), missing attributes, dangling references, the collection of the dependency graph from the definitions (bounded: generated cyclic models), item-definition classification (pending), parse_decision_table\'s arity validation (repaired by a fix: commit, not yet under contract).',
  },
  'C11': {
   'text': 'Partial. Verus proves on the real closure bodies (contracts generated per type from one table of the eight simple types): the simple-type and collection-of-simple-type item-definition evaluators and the '
